@@ -40,7 +40,6 @@ def handleParse : List String → Option String
     let pat ← decStr p
     match parsePattern flags isBytes pat with
     | .error .noAbsolute => pure "err ValueError"
-    | .error .outOfFuel => pure "err OutOfFuel"
     | .ok parsed =>
       let ast := match parsed.toRe with
         | some r => reSexp r
@@ -56,7 +55,6 @@ def handleMatch : List String → Option String
     let pat ← decStr p
     match parsePattern flags isBytes pat with
     | .error .noAbsolute => pure "err ValueError"
-    | .error .outOfFuel => pure "err OutOfFuel"
     | .ok parsed =>
       match parsed.toRe with
       | none => pure "err ReError"
